@@ -126,6 +126,28 @@ CLAIMED['C13'] = dict(
   note='Known finding: Chipset.Error from the register preparation of pn53x.Device.send_cmd_recv_rsp (4 keys, one root cause). Three defects '
        'repaired. Trusted: libusb1/pyserial exception hierarchies as tabulated in nfcsa/model.py.',
   technique='class-rooted interprocedural exception-escape analysis (ast)')
+CLAIMED['C01'] = dict(
+  category='other',
+  text='Decides structural necessary conditions of the write/read round trip: the type specific write is reachable only behind the writeable '
+       'and capacity gates and nothing before them can send a command; no variable bound only inside a loop is read on the zero-iteration path '
+       '(definite assignment on the CFG) in any write/format/read routine; the TLV length-format constants of Type 1/2 writer and reader agree, '
+       'tt1 == tt2, and the capacity adjustment is enumerated over every raw size 0..65535 against what the writer can place; the fragmenting '
+       'loops of the Type 3/4 readers and writers partition the data; the Type 3 attribute block layout and checksum agree between reader and '
+       'writer. Equality of the read-back octets for concrete memory images is not decided.',
+  design_ref='DESIGN.md section 3 C01',
+  note='One defect repaired (empty message on Type 1/2 raised UnboundLocalError). The emulated Type 3 Tag is covered by C07 only.',
+  technique='CFG dominance + definite-assignment analysis + writer/reader constant agreement (ast)')
+CLAIMED['C02'] = dict(
+  category='other',
+  text='Typestate over the CFG of every NDEF write routine: Type 1/2 zero the length and flush before any data store, flush data before any '
+       'length store, flush every length store before returning, and the commit byte must be flushed alone after the extended length; the '
+       'write-back visits units in ascending order and writes only changed units; Type 3 writes WriteFlag=0Fh first and Ln+WriteFlag=00h '
+       'together last; Type 4 writes either the whole file at once or a zero NLEN first and the real NLEN last. What a reader sees for a '
+       'concrete memory image after cut k needs a tag model and is not decided.',
+  design_ref='DESIGN.md section 3 C02',
+  note='Known finding (Type 1 and Type 2): marker byte FFh and the 16-bit length share one flush; the pinned suite asserts the command '
+       'transcripts, so it is recorded, not repaired. Trusted: flush order = ascending units, cut falls between commands.',
+  technique='write-phase typestate by CFG reachability (ast)')
 NA_REASON = {}
 def main():
     checks = []
